@@ -55,6 +55,8 @@ type gen struct {
 	ns  int64
 }
 
+func newRand(seed int64) *rand.Rand { return rand.New(rand.NewSource(seed)) }
+
 func (g *gen) p(x float64) bool { return g.rng.Float64() < x }
 func (g *gen) pick(n int) int   { return g.rng.Intn(n) }
 
@@ -444,6 +446,32 @@ func (g *gen) rpc(id int) *RPC {
 		if len(h) > 1 {
 			pos := 1 + g.pick(len(h)-1)
 			h = append(h[:pos], append([]Op{{K: "mutate", Ref: "r0"}}, h[pos:]...)...)
+		}
+	}
+	if g.p(k.pMutate) && r.Transport == TInproc && r.Kind != KUnary {
+		// the handler re-uses a response object right after (or some time
+		// after) its send returned; the client scribbles over what it received
+		ns := 0
+		for i := 0; i < len(h); i++ {
+			if h[i].K == "send" {
+				if g.p(0.5) {
+					pos := i + 1
+					if g.p(0.4) {
+						pos = i + 1 + g.pick(len(h)-i-1)
+					}
+					if pos >= len(h) {
+						pos = len(h) - 1
+					}
+					if pos <= i {
+						pos = i + 1
+					}
+					h = append(h[:pos], append([]Op{{K: "mutate", Ref: fmt.Sprintf("s%d", ns)}}, h[pos:]...)...)
+				}
+				ns++
+			}
+		}
+		if g.p(0.5) {
+			c = append(c, Op{K: "mutate", Ref: "r0"})
 		}
 	}
 	r.Client, r.Handler = c, h
